@@ -7,6 +7,8 @@ PYTHONPATH.  Line protocol (one request per line on stdin, one answer line on st
   V <clause> <clause> resolvable on frozensets
   S <clause> <int>    simplify_clause (clause part)
   MC <l> <r>          conclusion of merge_clauses (tie with the model's s_merge)
+  SC <clause> <x> / TC <clause> / OM <positions> <n>   conclusions of simplify_clause / prove_trivial_clause /
+                      or_move_to_front (tie with the model's s_simplify / s_trivial / or_move_to_front)
   QP S|M|T ...        run-time check of the helper specs H_simplify / H_merge / H_trivial of Taut/Glue.v
   QS <N|C|L> <cf>     proof layer of one stage on an arbitrary well-shaped ConjForm tree
   Q <form>            proof layer: run every returned ProofThunk under StatefulInterpreter and compare
@@ -430,6 +432,15 @@ def handle(line):
     cmd, _, arg = line.partition(' ')
     if cmd == 'QP':
         return cmd_QP(arg)
+    if cmd == 'SC':     # conclusion of simplify_clause's proof (not executed) vs the model's s_simplify
+        a, x = arg.split()
+        return hashlib.md5(show_core(TAUT.simplify_clause(parse_clause(a), int(x))[1].conc).encode()).hexdigest()
+    if cmd == 'TC':     # conclusion of prove_trivial_clause vs s_trivial
+        return hashlib.md5(show_core(TAUT.prove_trivial_clause(parse_clause(arg.strip())).conc).encode()).hexdigest()
+    if cmd == 'OM':     # conclusion of or_move_to_front(positions, [phi0..phi(n-1)]) vs the model
+        ps, n = arg.split()
+        pf = TAUT.or_move_to_front(parse_clause(ps), [MetaVar(i) for i in range(int(n))])
+        return hashlib.md5(show_core(pf.conc).encode()).hexdigest()
     if cmd == 'MC':     # conclusion of merge_clauses (not executed), compared with the model's s_merge
         a, b = arg.split()
         l, r = parse_clause(a), parse_clause(b)
